@@ -43,8 +43,10 @@ def builtin_or_template(motif):
     edges = [tuple(e) for e in motif["edges"]]
     ret = motif["ret"]
 
+    as_list = motif.get("etype") == "list"
+
     def template(vs):
-        es = [(vs[i], vs[j]) for i, j in edges]
+        es = [[vs[i], vs[j]] if as_list else (vs[i], vs[j]) for i, j in edges]
         if ret == "bare":
             return es[0]
         if ret == "tuple":
@@ -90,7 +92,9 @@ def motif_shape(draw, custom, allow_size1=True):
         ret = "bare"
     else:
         ret = draw(st.sampled_from(["list", "tuple"]))
-    return {"kind": "template", "m": m, "edges": edges, "ret": ret}
+    return {"kind": "template", "m": m, "edges": edges, "ret": ret,
+            # edges written as lists instead of tuples: only the custom generator (pure edge-list output)
+            "etype": draw(st.sampled_from(["tuple", "tuple", "list"])) if custom else "tuple"}
 
 
 @st.composite
@@ -266,6 +270,8 @@ def classes_of(case):
             cl.add("ge3_edge_motif")
         if ne == 0:
             cl.add("zero_edge_motif")
+        if m.get("etype") == "list":
+            cl.add("edges_as_lists")
         if not isinstance(m["names"], str) and len(set(m["names"])) > 1:
             cl.add("heterogeneous_names")
     return cl
